@@ -273,6 +273,185 @@ def g_pcase(case):
     return "(%s, %s, %s)" % (gz(sc["ptotal"]), glist(gz(c) for c in cnts), tr)
 
 
-def checker_name():
-    v = os.environ.get("VERIF_TOK_VARIANT", "")
-    return "check_case_lit" if v == "literal" else "check_case"
+# --------------------------------------------------------------------------- which member of the model family
+# The three witness schedules of the refutation theorems of props/C09.v (observer_death, release_unnotified,
+# idle_overfull).  Run on the tree under test they tell, for each of the three repairs, whether the tree
+# behaves like the literal pinned code or like the repaired code; the correspondence then uses that variant
+# of model/TokenFS.v (the C08 theorems hold for every variant, the C09 theorems for the repaired one).
+W1 = dict(kind="fs", total=1, nprocs=2, jobs=[dict(p=0, c=1), dict(p=1, c=1)],
+          steps=[["start", 0], ["start", 1], ["acquire", 0, 0], ["deliver", 1, 0], ["write", 0], ["acquire", 1, 1],
+                 ["launch", 0], ["end", 0, 0], ["release", 0, 0], ["fire", 1, 0], ["deliver", 0, 0], ["deliver", 0, 0],
+                 ["deliver", 0, 0]])
+W2 = dict(kind="fs", total=1, nprocs=2, jobs=[dict(p=0, c=1), dict(p=0, c=1)],
+          steps=[["start", 0], ["start", 1], ["acquire", 0, 0], ["write", 0], ["acquire", 0, 1], ["deliver", 1, 0],
+                 ["deliver", 1, 0], ["launch", 0], ["end", 0, 0], ["fire", 1, 0], ["release", 0, 0], ["deliver", 0, 0],
+                 ["deliver", 0, 0], ["deliver", 0, 0], ["deliver", 1, 0]])
+W3 = dict(kind="fs", total=2, nprocs=2, jobs=[dict(p=0, c=1)],
+          steps=[["start", 0], ["start", 1], ["acquire", 0, 0], ["write", 0], ["deliver", 1, 0], ["deliver", 1, 0],
+                 ["launch", 0], ["end", 0, 0], ["release", 0, 0], ["deliver", 1, 0], ["fire", 1, 0], ["deliver", 0, 0],
+                 ["deliver", 0, 0], ["deliver", 0, 0]])
+
+
+def detect_variant(driver, scratch):
+    import copy
+    scs = [copy.deepcopy(W1), copy.deepcopy(W2), copy.deepcopy(W3)]
+    r1, r2, r3 = run_batches(driver, scs, scratch, per=1, timeout=40)
+    for r in (r1, r2, r3):
+        if r.get("error"):
+            raise InternalError("variant probe failed: %s" % r["error"])
+    v_parse = not r1["steps"][3]["res"].startswith("raised")
+    v_notify = r2["steps"][10]["obs"]["jobs"][1][1] == "OK"
+    v_count = r3["steps"][4]["obs"]["procs"][1]["avail"] == 1
+    return (v_parse, v_count, v_notify)
+
+
+def checker_name(variant):
+    return "(check_case_v (mkV %s %s %s))" % tuple(gbool(b) for b in variant)
+
+
+# --------------------------------------------------------------------------- shrinking
+def explicit(sc, res, upto=None):
+    """The same scenario as an explicit step list (replayable)."""
+    steps = [st["op"] for st in res["steps"]]
+    if upto is not None:
+        steps = steps[:upto + 1]
+    out = dict(kind="fs", total=sc["total"], nprocs=sc["nprocs"], jobs=sc["jobs"], steps=steps)
+    return out
+
+
+def shrink_fs(driver, sc, key, which, scratch, rounds=12):
+    """Delete schedule steps while the oracle still reports `key` (each candidate is re-run on the
+    implementation; a candidate whose steps are no longer enabled is rejected)."""
+    cur = sc
+    for _ in range(rounds):
+        n = len(cur["steps"])
+        if n <= 2:
+            break
+        cands = []
+        for i in range(n - 1):  # keep the last step (where the violation shows)
+            c2 = dict(cur)
+            c2["steps"] = cur["steps"][:i] + cur["steps"][i + 1:]
+            cands.append(c2)
+        res = run_batches(driver, cands, scratch, per=max(1, (len(cands) + 15) // 16), timeout=30)
+        nxt = None
+        for c2, r in zip(cands, res):
+            if r.get("error"):
+                continue
+            if any(k == key for k, _, _ in oracle_fs(c2, r, which)):
+                nxt = c2
+                break
+        if nxt is None:
+            break
+        cur = nxt
+    cur = dict(cur)
+    cur.pop("scratch", None)
+    return cur
+
+
+# --------------------------------------------------------------------------- the check
+def run_check(c, which):
+    import vcommon
+    driver = "drive_%s.py" % which.lower()
+    quick = c.quick
+    if os.environ.get("VERIF_TOK_NOBUILD"):
+        c.gate()
+    else:
+        c.build()
+    c.props()
+    scratch = c.scratch()
+    variant = detect_variant(driver, scratch)
+    c.extra["tree_variant"] = dict(parse_fix=variant[0], count_fix=variant[1], notify_fix=variant[2])
+    if which == "C09":
+        # the theorems of props/C09.v other than the refutations are about the repaired code
+        c.obligations.append(dict(name="tie:tree-behaves-like-the-repaired-model", kind="tie", ok=all(variant),
+                                  detail="" if all(variant) else
+                                  "the tree behaves like the pinned code on the witness schedules: %s" % (c.extra["tree_variant"],)))
+    fs_cases, in_cases = [], []
+    if c.replay:
+        rp = json.load(open(c.replay))["replay"]
+        sc = rp.get("scenario", rp)
+        if sc.get("kind") == "fs":
+            fs_cases.append(sc)
+        elif sc.get("kind") == "inproc":
+            in_cases.append(sc)
+        elif sc.get("kind") in ("realobs", "stress"):
+            fs_cases = []
+        nfs = nin = 0
+    else:
+        gold = vcommon.ROOT / "golden" / ("%s.json" % which.lower())
+        if gold.exists():
+            for g in json.load(open(gold)):
+                (fs_cases if g.get("kind", "fs") == "fs" else in_cases).append(g)
+        nfs = 300 if quick else 3000
+        nin = 60 if quick else 400
+    for _ in range(nfs):
+        fs_cases.append(gen_fs(c.rng, not quick))
+    for _ in range(nin):
+        in_cases.append(gen_inproc(c.rng))
+
+    res_fs = run_batches(driver, fs_cases, scratch, per=12 if quick else 40, timeout=40) if fs_cases else []
+    res_in = run_batches(driver, in_cases, scratch, per=12 if quick else 40, timeout=40) if in_cases else []
+    for sc, r in list(zip(fs_cases, res_fs)) + list(zip(in_cases, res_in)):
+        if r.get("error"):
+            raise InternalError("scenario failed in the harness: %s\n%s" % (r["error"], json.dumps(sc)[:600]))
+
+    # ---- oracle on the implementation's observables
+    shrunk = {}
+    for sc, r in zip(fs_cases, res_fs):
+        c.evaluations += len(r["steps"])
+        c.count("procs=%d" % sc["nprocs"])
+        c.count("total=%d" % sc["total"])
+        c.count("jobs=%d" % len(sc["jobs"]))
+        c.count("profile:" + sc.get("profile", "scripted"))
+        maxfiles = 0
+        for st in r["steps"]:
+            c.count("op:" + st["op"][0])
+            if st["res"] != "ok":
+                c.count("result:" + st["res"])
+            maxfiles = max(maxfiles, len(st["obs"]["disk"]))
+            if st["op"][0] == "deliver" and any(cc < 0 for _, cc in st["obs"]["disk"]):
+                c.count("event-delivered-inside-create-window")
+        c.count("max-files-on-disk=%d" % maxfiles)
+        ends_q = bool(r["steps"]) and quiescent(r["steps"][-1]["obs"])
+        c.count("ends-quiescent=%s" % ends_q)
+        ops = set(st["op"][0] for st in r["steps"])
+        refused = any(st["res"] == "lockerror" for st in r["steps"])
+        if which == "C08":
+            nontriv = maxfiles >= 2 or refused
+        else:
+            nontriv = "release" in ops and ends_q and (sc["nprocs"] >= 2 or "kill" in ops or "fire" in ops)
+        if nontriv:
+            c.nontrivial.add(json.dumps([sc["total"], sc["nprocs"], sc["jobs"], [st["op"] for st in r["steps"]]]))
+        for key, what, k in oracle_fs(sc, r, which):
+            if key in shrunk:
+                continue
+            ex = explicit(sc, r, k)
+            small = shrink_fs(driver, ex, key, which, scratch) if not c.replay else ex
+            shrunk[key] = small
+            c.violation(key, what, dict(scenario=small, found_at_step=k, steps_before_shrinking=k + 1))
+    for sc, r in zip(in_cases, res_in):
+        c.evaluations += len(r["steps"])
+        c.count("inproc:jobs=%d" % len(sc["jobs"]))
+        for st in r["steps"]:
+            c.count("inproc:" + st["op"][0] + ":" + st["res"].split(":")[0])
+        if any(st["res"].startswith("abort") for st in r["steps"]) and len(r["pops"]) >= 2:
+            c.nontrivial.add(json.dumps([sc["ptotal"], sc["ftotal"], sc["jobs"], sc["ops"]]))
+        for key, what, k in oracle_inproc(sc, r, which):
+            sc2 = dict(sc)
+            sc2.pop("scratch", None)
+            sc2["ops"] = sc["ops"][:k + 1]
+            c.violation(key, what, dict(scenario=sc2, found_at_step=k))
+
+    # ---- correspondence inside Coq
+    cases = list(zip(fs_cases, res_fs))
+    if cases:
+        shard = max(5, (len(cases) + 15) // 16) if quick else 60
+        bad = c.corr_shards("fs", HEADER, cases, g_case, checker_name(variant), shard=shard, timeout=1500)
+        c.extra["disagreeing_traces"] = [explicit(*cases[i]) for i in bad[:3]]
+    pcases = [(sc, r) for sc, r in zip(in_cases, res_in) if r["pops"]]
+    if pcases:
+        c.corr_shards("inproc", HEADER, pcases, g_pcase, "check_pcase", shard=max(20, (len(pcases) + 3) // 4))
+    c.samples = [dict(total=sc["total"], nprocs=sc["nprocs"], jobs=sc["jobs"],
+                      schedule=[st["op"] for st in r["steps"]][:40],
+                      last=r["steps"][-1]["obs"] if r["steps"] else None) for sc, r in cases[:3]]
+    return fs_cases, res_fs
